@@ -375,6 +375,95 @@ class Program:
                             set_parents(mod.tree)
                     if not did:
                         break
+        # ---- N10  f(_gen(a, b)) where `_gen` is a private generator helper whose whole body is ONE filter/map loop
+        #           def _gen(p, q): for T in ITER: [if C:] yield E        ==>   f((E for T in ITER if C))  with p, q replaced by a, b
+        #      Side conditions: same module, positional parameters only, the arguments are names / attribute chains / constants
+        #      (cheap and free of side effects, so evaluating them where the parameter was read is the same), loop targets
+        #      renamed apart. The helper's `yield`s become the elements of a generator expression - the form the rules know.
+        def n10_shape(h: FuncInfo):
+            body = [st for st in h.node.body if not (isinstance(st, ast.Expr) and isinstance(st.value, ast.Constant))]
+            if len(body) != 1 or not isinstance(body[0], ast.For) or body[0].orelse:
+                return None
+            lp = body[0]
+            inner = lp.body
+            cond = None
+            if len(inner) == 1 and isinstance(inner[0], ast.If) and not inner[0].orelse:
+                cond, inner = inner[0].test, inner[0].body
+            if len(inner) != 1 or not (isinstance(inner[0], ast.Expr) and isinstance(inner[0].value, ast.Yield) and inner[0].value.value is not None):
+                return None
+            return lp.target, lp.iter, cond, inner[0].value.value
+
+        def simple_arg(e: ast.expr) -> bool:
+            while isinstance(e, ast.Attribute):
+                e = e.value
+            return isinstance(e, (ast.Name, ast.Constant))
+
+        for mod in self.modules.values():
+            for fn in list(mod.all_funcs):
+                replaced = False
+
+                class N10(ast.NodeTransformer):
+                    def visit_FunctionDef(self_, node):
+                        return node if node is not fn.node else self_.generic_visit(node)
+
+                    visit_AsyncFunctionDef = visit_FunctionDef
+
+                    def visit_Lambda(self_, node):
+                        return node
+
+                    def visit_Call(self_, call):
+                        nonlocal replaced
+                        self_.generic_visit(call)
+                        par = getattr(call, "_parent", None)
+                        if isinstance(par, ast.YieldFrom) or isinstance(par, (ast.For, ast.AsyncFor)) and par.iter is call:
+                            pass  # N8 / plain iteration: also fine as a generator expression
+                        try:
+                            h = self.resolve_call(fn, call)
+                        except Exception:
+                            h = None
+                        if not isinstance(h, FuncInfo) or h is fn or not private(h) or h.module is not mod or not h.is_generator() or isinstance(h.node, ast.AsyncFunctionDef):
+                            return call
+                        if any(isinstance(x, (ast.FunctionDef, ast.AsyncFunctionDef, ast.Lambda, ast.ClassDef, ast.Global, ast.Nonlocal)) for x in ast.walk(h.node) if x is not h.node):
+                            return call
+                        shape = n10_shape(h)
+                        sp = simple_params(h, call)
+                        if shape is None or sp is None:
+                            return call
+                        recv_name, self_param, order = sp
+                        if not all(simple_arg(av) for _pn, av in order):
+                            return call
+                        target, it, cond, elt = (copy.deepcopy(x) if x is not None else None for x in shape)
+                        prefix = f"_{h.name.strip('_')}__"
+                        tnames = {x.id for x in ast.walk(target) if isinstance(x, ast.Name)}
+                        subst = {pn: av for pn, av in order}
+                        if self_param is not None:
+                            subst[self_param] = ast.Name(id=recv_name, ctx=ast.Load())
+                        if tnames & set(subst):
+                            return call
+
+                        class Sub(ast.NodeTransformer):
+                            def visit_Name(s2, n):
+                                if n.id in tnames:
+                                    return ast.copy_location(ast.Name(id=prefix + n.id, ctx=n.ctx), n)
+                                if n.id in subst and isinstance(n.ctx, ast.Load):
+                                    return ast.copy_location(copy.deepcopy(subst[n.id]), n)
+                                return n
+                        target, it, elt = Sub().visit(target), Sub().visit(it), Sub().visit(elt)
+                        cond = Sub().visit(cond) if cond is not None else None
+                        if any(isinstance(x, ast.Name) and isinstance(x.ctx, ast.Store) and x.id in subst for part in (it, elt, cond) if part is not None for x in ast.walk(part)):
+                            return call
+                        gen = ast.GeneratorExp(elt=elt, generators=[ast.comprehension(target=target, iter=it, ifs=[cond] if cond is not None else [], is_async=0)])
+                        replaced = True
+                        self.inlined_generators.add(h.fq)
+                        self.inlined_into.setdefault(h.fq, set()).add(fn.fq)
+                        return ast.copy_location(gen, call)
+
+                N10().visit(fn.node)
+                if replaced:
+                    from .normal import _Accumulate
+                    _Accumulate(fn.node).visit(fn.node)  # N3/N4 again: `x = list(<genexp>); x.extend(<genexp>)` is one list display now
+                    ast.fix_missing_locations(fn.node)
+                    changed_mods.add(mod.name)
         for name in changed_mods:
             set_parents(self.modules[name].tree)
 
